@@ -289,7 +289,7 @@ structure Inst where
   deriving Repr
 
 /-- `self.__raw_get(name)` / `super().__getattribute__(name)` of a field name -/
-abbrev rawGet (self : Inst) (name : Nat) : Val := self.slots.getD name .ph
+def rawGet (self : Inst) (name : Nat) : Val := self.slots.getD name .ph
 /-- `super().__setattr__(name, v)` of a field name -/
 def rawSet (self : Inst) (name : Nat) (v : Val) : Inst := { self with slots := self.slots.set name v }
 /-- `self.__dict__["_serialized_on_wire"] = b` -/
@@ -350,7 +350,7 @@ def dataclassInit (setattr : Inst → Nat → Val → Res Inst) (cls : List Fiel
     let rec go : List Field → Inst → Res Inst
       | [], self => .ok self
       | (i, f) :: rest, self =>
-        (setattr self i (match lookupKw kw i with | some v => v | Option.none => fieldDefault f)).bind fun self =>
+        (setattr self i ((lookupKw kw i).getD (fieldDefault f))).bind fun self =>
         go rest self
     go (dataclassFields cls) { slots := cls.map fieldDefault }
 
